@@ -26,6 +26,9 @@ SlotOf(e) == IF "s" \in DOMAIN e THEN e.s ELSE IF "d" \in DOMAIN e THEN e.d ELSE
 Err(e, why) == IF PrintT(<<"ERR", ToJson([line |-> l, run |-> e.run, why |-> why,
                                           afterclear |-> SlotOf(e) \in cleared])>>) THEN errs + 1 ELSE errs
 
+RECURSIVE ErrAll(_, _, _)
+ErrAll(e, whys, acc) == IF whys = <<>> THEN acc ELSE ErrAll(e, Tail(whys), Err(e, Head(whys)) - errs + acc)
+
 \* monitor view of a slot: which tags are assigned, which strings must / may be entries,
 \* what was learnt from the log about the ties, and the statistics it accumulates itself
 Fresh == [tags |-> {}, must |-> {}, may |-> {}, anyseen |-> FALSE, coded |-> {}, literal |-> {}, k |-> 0,
@@ -70,17 +73,19 @@ Step(e) ==
                   THEN slots' = [slots EXCEPT ![e.s].poisoned = TRUE] /\ UNCHANGED <<skip, errs>>
                   ELSE errs' = Err(e, "push-panicked") /\ skip' = TRUE /\ UNCHANGED slots
              ELSE LET wasCoded == Len(v) > 1 /\ e.delta = 1
-                      why == IF e.read_err # "" THEN "read-failed"
-                             ELSE IF e.read # v THEN "read-back-differs"
-                             ELSE IF ~e.stable THEN "earlier-item-changed"
-                             ELSE IF hitsTag /\ ~inMay THEN "ambiguous-input-accepted"
-                             ELSE IF inMust /\ Len(v) > 1 /\ ~wasCoded THEN "frequent-string-not-coded"
-                             ELSE IF ~inMay /\ e.delta # Len(v) THEN "literal-size-differs"
-                             ELSE IF wasCoded /\ ~inMay THEN "coded-without-statistics"
-                             ELSE IF e.delta # 1 /\ e.delta # Len(v) THEN "stored-size-differs"
-                             ELSE IF wasCoded /\ v \notin sl.coded /\ Cardinality(sl.coded) >= sl.k THEN "more-entries-than-tags"
-                             ELSE "ok"
-                  IN  IF why = "ok"
+                      \* every failing check of this push is reported (one wrong answer must not hide another)
+                      readwhy == IF e.read_err # "" THEN <<"read-failed">>
+                                 ELSE IF e.read # v THEN <<"read-back-differs">> ELSE <<>>
+                      sizewhy == IF hitsTag /\ ~inMay THEN "ambiguous-input-accepted"
+                                 ELSE IF inMust /\ Len(v) > 1 /\ ~wasCoded THEN "frequent-string-not-coded"
+                                 ELSE IF ~inMay /\ e.delta # Len(v) THEN "literal-size-differs"
+                                 ELSE IF wasCoded /\ ~inMay THEN "coded-without-statistics"
+                                 ELSE IF e.delta # 1 /\ e.delta # Len(v) THEN "stored-size-differs"
+                                 ELSE IF wasCoded /\ v \notin sl.coded /\ Cardinality(sl.coded) >= sl.k THEN "more-entries-than-tags"
+                                 ELSE "ok"
+                      whys == readwhy \o (IF ~e.stable THEN <<"earlier-item-changed">> ELSE <<>>)
+                                      \o (IF sizewhy # "ok" THEN <<sizewhy>> ELSE <<>>)
+                  IN  IF whys = <<>>
                       THEN /\ slots' = [slots EXCEPT ![e.s] =
                                   [sl EXCEPT !.issued = Append(@, v),
                                              !.counts = IF v = <<>> THEN @ ELSE Bump(@, v),
@@ -88,7 +93,7 @@ Step(e) ==
                                              !.coded = IF wasCoded THEN @ \cup {v} ELSE @,
                                              !.literal = IF Len(v) > 1 /\ ~wasCoded THEN @ \cup {v} ELSE @]]
                            /\ UNCHANGED <<skip, errs>>
-                      ELSE errs' = Err(e, why) /\ skip' = TRUE /\ UNCHANGED slots
+                      ELSE errs' = ErrAll(e, whys, errs) /\ skip' = TRUE /\ UNCHANGED slots
     [] e.ev = "merge" ->
          IF e.panic
          THEN errs' = Err(e, "merge-panicked") /\ skip' = TRUE /\ UNCHANGED slots
